@@ -920,8 +920,25 @@ func popSession(c *core.Ctx, m *core.Model, r *rand.Rand, idx int) {
 			default:
 				st.PurgeMessages(box)
 				note("other-client purge %s", box)
+				if r.Intn(2) == 0 { // ... and the mailbox fills up again while the session still holds its snapshot
+					for i, n := 0, 1+r.Intn(4); i < n; i++ {
+						id, _ := popDeliver(st, box, popGenSource(r, false))
+						note("other-client add %s id=%s (after the purge)", box, id)
+					}
+					c.H("store-mutation:purge-then-refill")
+				}
 			}
 			cur[box], _ = popDump(st, box)
+			// implementation only: an id the session has shown keeps naming the message it named at login
+			if sh.inTrans && box == sh.user && !sh.unreliable {
+				for _, x := range cur[box] {
+					for _, sm := range sh.snap {
+						if sm.id == x.id && !bytes.Equal(sm.src, x.src) {
+							c.Fail("unique-id-names-one-message", cas(), fmt.Sprintf("id %q named a %d-byte message at login and now names a different %d-byte message of mailbox %q", x.id, len(sm.src), len(x.src), box), "")
+						}
+					}
+				}
+			}
 			if a := m.Ask(popStoreLine(box, cur[box])); a != "ok" {
 				c.Diverge("pop3-session", cas(), "store", a)
 				return
@@ -1146,7 +1163,7 @@ func popSession(c *core.Ctx, m *core.Model, r *rand.Rand, idx int) {
 			gone := false
 			if committed && b == sh.user {
 				for i, sm := range sh.snap {
-					if sh.marked[i+1] && sm.id == x.id {
+					if sh.marked[i+1] && sm.id == x.id && bytes.Equal(sm.src, x.src) {
 						gone = true
 					}
 				}
